@@ -175,7 +175,7 @@ USERDB_DOCS = ['Some \\emph{important} text.', '\\emph', '\\textbf\\emph{x}', '$
                '\\begin{center}c \\textit{i}\\end{center}~\\alpha\\beta x', '\\textbf', '\\begin{center}', '~~', '\\emph{\\textbf{\\textit{}}}']
 
 def to_line(c):
-    if c.get('deep') or c.get('userdb') or c.get('legacy'):
+    if c.get('deep') or c.get('userdb') or c.get('legacy') or c.get('subclass'):
         return None
     if c['o'].get('fill') is not None:
         return None
@@ -227,6 +227,15 @@ def run_impl(c):
         kw = opts_kwargs(o)
         if c.get('userdb'):
             kw['latex_context'] = user_textdb()
+        if c.get('subclass'):
+            # the documented hook: read_input_file() "may be overridden to implement a custom lookup mechanism"
+            class _L2T(LatexNodes2Text):
+                def read_input_file(self, fn):
+                    return 'IN<\\emph{%s}>' % fn if len(fn) < 40 else ''
+            r = _L2T(**kw).latex_to_text(c['s'])
+            if not isinstance(r, str):
+                raise TypeError('not a str')
+            return {'out': 'ok ' + show_str(r), 'fail': None, 'sig': 'ok-subclass|%s|nofill' % o['mm']}
         if c.get('legacy'):
             # the obsolete (still documented) dictionary options, given alone or together
             from pylatexenc import latex2text
@@ -313,6 +322,9 @@ def cases(tier, rng):
     for s in USERDB_DOCS:
         for o in sweep[::3]:
             yield {'s': s, 'o': o, 'userdb': True}
+    for s in ['\\input{a}', 'x \\input{a.tex} y', '\\include{b}$\\input{c}$', '\\input', '\\input{}', '{\\input{a}\\input{a}}']:
+        for o in sweep[::5]:
+            yield {'s': s, 'o': o, 'subclass': True}
     for s in USERDB_DOCS + ['a--b``c', '``', '--']:
         for leg in ('macro', 'env', 'both'):
             yield {'s': s, 'o': dict(DEFAULT_OPTS), 'legacy': leg}
